@@ -13,4 +13,17 @@ def harnesses():
               inst="mul_redc::<1>, square_redc::<1>, Uint<64,1>::{mul_redc, square_redc}",
               domain="same lattice; additionally square_redc against its own definition and the Uint methods against "
                      "the slice-level results", free_bits=11,
-              fns=["algorithms::mul_redc", "algorithms::square_redc", "Uint::mul_redc", "Uint::square_redc"])]
+              fns=["algorithms::mul_redc", "algorithms::square_redc", "Uint::mul_redc", "Uint::square_redc"]),
+            H("c11_redc1_small_mul_5", "C11", "c11::redc1_small::<0,5>", unwind=8, tier="quick", timeout=3600, inst="mul_redc::<1>",
+              domain="every odd modulus 3..=31 (composite ones included), every a, b < m; inv from a compile-time table (checked by "
+                     "the library's own debug assertion); oracle: r < m and r * 2^64 = a * b (mod m)", free_bits=14,
+              fns=["algorithms::mul_redc"], role="c11::redc1_small", covers_required=["zero-divisors"]),
+            H("c11_redc1_small_mul_6", "C11", "c11::redc1_small::<0,6>", unwind=8, tier="quick", timeout=3600, inst="mul_redc::<1>",
+              domain="every odd modulus 3..=63, every a, b < m",
+              free_bits=17, fns=["algorithms::mul_redc"], role="c11::redc1_small", covers_required=["zero-divisors"]),
+            H("c11_redc1_small_mul_7", "C11", "c11::redc1_small::<0,7>", unwind=8, tier="thorough", timeout=3600, inst="mul_redc::<1>",
+              domain="every odd modulus 3..=127, every a, b < m (8-bit moduli, 24 free bits, did not finish in 1500 s)",
+              free_bits=20, fns=["algorithms::mul_redc"], role="c11::redc1_small", covers_required=["zero-divisors"]),
+            H("c11_redc1_small_square", "C11", "c11::redc1_small::<1,8>", unwind=8, tier="quick", timeout=3600,
+              inst="square_redc::<1>", domain="every odd modulus 3..=255, every a < m; oracle: r < m and r * 2^64 = a * a (mod m)",
+              free_bits=15, fns=["algorithms::square_redc"], role="c11::redc1_small", covers_required=["zero-divisors"])]
